@@ -312,6 +312,27 @@ Definition ioloop_exit_summary : list string :=
   ["if client.peerInfo != nil"; "call LookupRegistrations"; "call RemoveProducer"].
 Definition ioloop_read_summary : list string :=
   ["call ReadString"; "call TrimSpace"; "call Split"; "call Exec"].
+(* the identity of a connection: in the models above a producer entry carries the number of
+   the connection it arrived on ([mkProd p ...]) and the decoded body only supplies the four
+   checked fields.  In the source that is: peerInfo.id is set from the socket BEFORE
+   json.Unmarshal (which cannot reach the unexported field) and nothing writes it afterwards;
+   the exported RemoteAddress is overwritten from the socket after decoding; every registry
+   call of the connection handlers is keyed by client.peerInfo(.id). *)
+Definition identify_identity : list string :=
+  ["peerInfo := PeerInfo{id: client.RemoteAddr().String()}";
+   "call json.Unmarshal(&peerInfo)";
+   "peerInfo.RemoteAddress = client.RemoteAddr().String()";
+   "call StoreInt64(&peerInfo.lastUpdate)";
+   "client.peerInfo = &peerInfo"].
+Definition identity_uses : list string :=
+  ["IDENTIFY: AddProducer(Registration{""client"", """", """"}, &Producer{peerInfo: client.peerInfo})";
+   "REGISTER: AddProducer(key, &Producer{peerInfo: client.peerInfo})";
+   "REGISTER: AddProducer(key, &Producer{peerInfo: client.peerInfo})";
+   "UNREGISTER: RemoveProducer(key, client.peerInfo.id)";
+   "UNREGISTER: RemoveProducer(r, client.peerInfo.id)";
+   "UNREGISTER: RemoveProducer(key, client.peerInfo.id)";
+   "IOLoop: LookupRegistrations(client.peerInfo.id)";
+   "IOLoop: RemoveProducer(r, client.peerInfo.id)"].
 Definition exec_table : list (string * string * string) :=
   [("PING", "PING", "client,params");
    ("IDENTIFY", "IDENTIFY", "client,reader,params[1:]");
